@@ -224,6 +224,58 @@ Fixpoint tool_lines (o : wopts) (g : list Z -> list Z) (cr_out : bool) (ls : lis
 Definition foldfilter (o : wopts) (g : list Z -> list Z) (cr_in cr_out : bool) (input : list Z) : tres :=
   tool_lines o g cr_out (records 10 cr_in input).
 
+(* ---------- the data flow as it is: ONE stream to the child, ONE stream back ----------
+   The feeder wraps every line, enqueues its withheld runs and writes its pieces, one per line,
+   to the child; the collector takes, for each queue entry in order, as many answer lines from
+   the child's output stream as the entry has runs.  The child is any function from the bytes
+   it reads to the bytes it writes.  (Surplus child output after the last line is not noticed
+   by foldfilter; too little is TChildShort.) *)
+Inductive wares := WAOk (pieces : list (list Z)) (dels : list (list (list Z))) | WABad | WAFuel.
+
+Fixpoint wrap_all (o : wopts) (ls : list (list Z)) : wares :=
+  match ls with
+  | [] => WAOk [] []
+  | l :: r =>
+    match wrap_lines l o with
+    | WBadUtf8 => WABad
+    | WFuel => WAFuel
+    | WOk ps ds =>
+      match wrap_all o r with
+      | WAOk ps' dss => WAOk (ps ++ ps') (ds :: dss)
+      | e => e
+      end
+    end
+  end.
+
+Fixpoint collect_lines (dss : list (list (list Z))) (answers : list (list Z)) : option (list (list Z)) :=
+  match dss with
+  | [] => Some []
+  | ds :: r =>
+    match join answers ds with
+    | None => None
+    | Some (s, rest) =>
+      match collect_lines r rest with
+      | Some out => Some (s :: out)
+      | None => None
+      end
+    end
+  end.
+
+Definition foldfilter_stream (o : wopts) (child : list Z -> list Z) (cr_in cr_out : bool) (input : list Z) : tres :=
+  match wrap_all o (records 10 cr_in input) with
+  | WABad => TBadUtf8
+  | WAFuel => TFuel
+  | WAOk pieces dss =>
+    match collect_lines dss (records 10 cr_out (child (unrecords 10 pieces))) with
+    | None => TChildShort
+    | Some out => TOk (unrecords 10 out)
+    end
+  end.
+
+(* a child that answers every line l it reads with g l *)
+Definition line_child (g : list Z -> list Z) (child_in : list Z) : list Z :=
+  unrecords 10 (map g (records 10 false child_in)).
+
 (* -w <num>: a non-empty string of decimal digits below 2^64 (what a size_t holds);
    anything else is a usage error.  None = usage error (exit status 1). *)
 Fixpoint digits_value (acc : Z) (s : list Z) : option Z :=
